@@ -310,6 +310,12 @@ func (P *Prog) receiverStores(fn *ssa.Function) []*ssa.Store {
 			case *ssa.ChangeType:
 				v = x.X
 				continue
+			case *ssa.Call:
+				if a, ok := P.identityArg(x); ok {
+					v = a
+					continue
+				}
+				return false
 			case *ssa.Parameter:
 				return paramIndex(x) == 0 && x.Parent() == f
 			}
@@ -365,6 +371,12 @@ func (P *Prog) receiverWrites(fn *ssa.Function) []*recvWrite {
 			case *ssa.ChangeType:
 				v = x.X
 				continue
+			case *ssa.Call:
+				if a, ok := P.identityArg(x); ok {
+					v = a
+					continue
+				}
+				return false
 			case *ssa.Parameter:
 				return paramIndex(x) == 0 && x.Parent() == f
 			}
@@ -1282,6 +1294,18 @@ func c05LabelScanOnly(r *Report, rule string) {
 				for i := 0; i < 2; i++ {
 					if n, ok := termConstInt(c.Pred.Args[i]); ok && (n == 0 || n == 1 || n == 3) && c.Pred.Args[1-i].String() == "binop<>>>(*index($1, 0), 5)" {
 						mt = true
+					}
+				}
+			}
+		}
+		if !mt {
+			// any other spelling of the test (ranges, inverted early returns):
+			// the values the path's conditions leave for data[0]>>5
+			if dom, ok := smallDomainIn(mustPat("binop<>>>(*index($1, 0), 5)"), p.conds, 0, 7, 8); ok {
+				mt = true
+				for _, v := range dom {
+					if v != 0 && v != 1 && v != 3 {
+						mt = false
 					}
 				}
 			}
